@@ -21,9 +21,18 @@ def build_set(chk, wsname, structs, profile):
         if s.has_builder and not oracle.builder_offered(s):
             raise B.MachineryError(f"generator: a struct of {wsname} expects a builder the reference model does not offer: {[f.ranges for f in s.fields]}")
     B.name_structs(structs, prefix=wsname.upper().replace('-', '_') + "_")
-    t0 = time.time()
-    ws, ok, dt, diag = B.build_machine_set(wsname, structs, profile)
+    dropped = []
+    ws, ok, dt, diag = B.build_machine_set(wsname, structs, profile, dropped=dropped)
     chk.extra.setdefault("build_s", {})[f"{wsname}:{profile}"] = round(dt, 1)
+    for s, msgs in dropped:
+        # generated code for a declaration the reference model calls valid does not compile: a verdict for that declaration
+        text = R.struct_decl(s)
+        chk.add_violation(f"does not compile: {text}", "compile", f"generated code for a valid declaration is rejected by rustc: {text} :: {msgs[0]}",
+                          {"engine": "regmc-build", "spec": R.spec_struct(s), "errors": msgs[:5]})
+        chk.states += 1
+        chk.transitions += 1
+    if dropped:
+        chk.notes.append(f"{wsname}: {len(dropped)} declarations removed after rustc rejected their generated code; the remaining {len(structs) - len(dropped)} were explored")
     if not ok:
         chk.compile_violation("compile", wsname, profile, diag, len(structs))
         return None
@@ -223,6 +232,19 @@ def c16(tier):
                 key = f"profile divergence: {heads.get(m, m)}"
                 chk.add_violation(key, "profile_divergence", f"{key}: observation digests differ between profiles checked ({a[m]}) and fast ({b[m]})",
                                   {"engine": "digest", "machine": m, "head": heads.get(m), "checked": a[m], "fast": b[m]})
+    acc = beyond_accepted(chk, tier)
+    if acc:
+        reps = {}
+        for prof in ('checked', 'fast'):
+            wsb = build_set(chk, f"beyond-{tier}", acc, prof)
+            if wsb:
+                reps[prof] = B.run(wsb, prof, 'sweep', ['--ops', 'all', '--full-n', 16, '--full-w', 8, '--oob', 1], out_name=f"report-C16-beyond-{prof}.json")
+                chk.add_report(reps[prof], f"sweep:beyond:{prof}")
+        if len(reps) == 2:
+            a, b = reps['checked']['digests'], reps['fast']['digests']
+            for m in [m for m in a if a[m] != b.get(m)][:5]:
+                chk.add_violation(f"profile divergence on an accepted out-of-range declaration: {m}", "profile_divergence",
+                                  f"observation digests differ between profiles for {m}", {"engine": "digest", "machine": m})
     # enums and constants in both profiles
     eds = sets.enum_set(t)
     for prof in ('checked', 'fast'):
@@ -284,6 +306,13 @@ def c11(tier):
     if tier == 'thorough':
         product_run_named(chk, ws, prof, wide, depth=3, values='core4', full_n=0, label="wide-d3")
         product_run_named(chk, ws, prof, [s.name for s in structs if 12 < s.n <= 16], depth=0, values='small', full_n=16, label="fixedpoint16")
+    acc = [s for s in beyond_accepted(chk, tier) if s.n not in NATIVE]
+    if acc:
+        wsb = build_set(chk, f"beyond-{tier}", acc, prof)
+        if wsb:
+            repb = B.run(wsb, prof, 'sweep', ['--ops', 'all', '--full-n', 16, '--full-w', 8, '--strict-storage', 1], out_name=f"report-C11-beyond-{prof}.json")
+            chk.add_report(repb, f"sweep:beyond:{prof}")
+            product_run_named(chk, wsb, prof, [s.name for s in acc if s.n <= 12][:40], depth=0, values='full', full_n=12, label="beyond-fixedpoint")
     chk.closed = bool(closed_sweep) and all(r['closed'] is not False for r in pm)
     chk.bounds.append("every non-native N<=16: all 2^N states x all actions (w<=8 all values) to a fixed point with the hand sweeper (strict storage: object == its re-wrap); "
                       "stateright product machine: N<=12 fixed point (unique states must equal 2^N), " +
@@ -415,3 +444,34 @@ def c15(tier):
 
 
 PROPS['C15'] = c15
+
+
+def beyond_accepted(chk, tier):
+    """compile every BEYOND declaration on its own; return the structs rustc accepts (none on a tree where C09 holds)"""
+    from . import declmc as D, oracle
+    structs = sets.beyond_structs(tier)
+    B.name_structs(structs, prefix="BEYOND_")
+    for s in structs:
+        f = s.fields[0]
+        ranges = [(lo, lo + l - 1) for lo, l in f.ranges]
+        ty = R.elem_ty(f)
+        if oracle.field_valid(s.n, 'bits', ranges, ty, f.arr[0] if f.arr else None, f.arr[1] if (f.arr and f.stride_explicit) else None):
+            raise B.MachineryError(f"generator: a BEYOND declaration is valid by the reference model: {R.struct_decl(s)}")
+    arts = D.carrier()
+    items = [D.Item(j, R.struct_decl(s)) for j, s in enumerate(structs)]
+    errs, unatt = D.compile_items(arts, items, f"beyond-{chk.pid}", emit="metadata", nshards=16)
+    if unatt:
+        raise B.MachineryError(f"BEYOND: unattributed diagnostics: {unatt[:3]}")
+    acc = [s for j, s in enumerate(structs) if j not in errs]
+    # positions at or above bit 128 cannot be represented in the reference register: such declarations are only probed
+    # for acceptance (C09 reports them), not explored
+    chk.extra["beyond_declarations_accepted_total"] = len(acc)
+    acc = [s for s in acc if s.fields[0].top() <= 128]
+    chk.programs += len(structs)
+    chk.transitions += len(structs)
+    chk.validated += len(structs)
+    chk.extra["beyond_declarations_probed"] = len(structs)
+    chk.extra["beyond_declarations_accepted"] = len(acc)
+    chk.bounds.append(f"BEYOND family: {len(structs)} declarations addressing bits at or above the declared width (bool/uN/iN at N, straddling N-1, arrays and range lists reaching N, beyond the storage) "
+                      "are compiled; every one the compiler accepts is explored like a valid layout")
+    return acc
